@@ -3,12 +3,12 @@
 P=$1; shift
 cd /repo || exit 9
 if ! git diff --quiet; then echo "repo dirty"; exit 9; fi
-git apply "$P" 2>/dev/null || git apply --3way "$P" 2>/dev/null || patch -p1 -F3 -s < "$P" || { echo "APPLY-FAILED $P"; git checkout -q -- .; exit 8; }
-git reset -q 2>/dev/null
+git apply "$P" 2>/dev/null || { git reset -q --hard HEAD; patch -p1 -F3 -s < "$P" </dev/null >/dev/null 2>&1 && ! ls $(git ls-files -m | sed 's/$/.rej/') >/dev/null 2>&1; } || { echo "APPLY-FAILED $P"; git reset -q --hard HEAD; git clean -qfd crates; exit 8; }
+find crates -name "*.orig" -delete 2>/dev/null
 for prop in "$@"; do
   out=$(cd /verif && ./check $prop --tier ${TIER:-quick} 2>&1); rc=$?
   echo "== $prop rc=$rc"; echo "$out" | grep -E "VIOLATION|KNOWN-FINDING|HARNESS-ERROR|^\[check\] C" | head -8
   echo "$out" | grep -A2 "VIOLATION" | grep -E "^  " | head -4
 done
-git -C /repo checkout -q -- . ; git -C /repo clean -qfd crates 2>/dev/null
+git -C /repo reset -q --hard HEAD ; git -C /repo clean -qfd crates 2>/dev/null
 git -C /repo status --short | head -3
